@@ -19,7 +19,8 @@ def main():
     dst = f"/verif/seeded/{name}"
     os.makedirs(dst, exist_ok=True)
     for f in ("patch.diff", "demo_test.go", "meta.json"):
-        shutil.copy(os.path.join(cand, f), os.path.join(dst, f))
+        if os.path.abspath(os.path.join(cand, f)) != os.path.abspath(os.path.join(dst, f)):
+            shutil.copy(os.path.join(cand, f), os.path.join(dst, f))
     meta = json.load(open(os.path.join(dst, "meta.json")))
     wt = f"/tmp/seedwt_{name}"
     sh(f"git -C /repo worktree remove --force {wt}")
